@@ -80,12 +80,14 @@ def check(tier, seed, replay=None):
     import exprparse as EP
     items = []        # (ast, input ast, vars, macros, text)
     bags = []         # (text, input list): the result must be a rearrangement of the input
+    regex = {}        # item number -> the regular expressions (pattern text, AST) the item uses
     if replay:
         rep = json.load(open(replay))["recipe"]
         if "bag" in rep:
             bags = [(rep["bag"], PL.ast_of_enc(rep["input"]))]
         else:
             items = [(rep["ast"], PL.ast_of_enc(rep["input"]), [], [], rep["text"])]
+            regex[0] = rep.get("re", [])
     else:
         r = tlc("MC_Expr", "MC_Expr.cfg", workers=8, timeout=1800)
         tlc_ok(r, "MC_Expr")
@@ -137,6 +139,21 @@ def check(tier, seed, replay=None):
             for lst in ([a, b], [b, a], [a, 1, b], [b, "x", a, None]):
                 for f in ("sort_unique", "sort", "order_unique"):
                     bags.append(("(%s .)" % f, ("arr", [("num", str(x)) if isinstance(x, int) else ("str", X.cps(x)) if isinstance(x, str) else ("null",) for x in lst])))
+        # (v) regular expressions: patterns generated from ASTs of Regex.tla (the fragment it gives a meaning), and texts the compiler refuses
+        import regexgen as RG
+        for i in range(400 if quick else 20000):
+            if rnd.random() < 0.08:
+                ptxt, past, ngroups = rnd.choice(RG.INVALID), {"r": "invalid"}, 0
+            else:
+                ptxt, past, ngroups = RG.rand_pattern(rnd)
+            subj = RG.rand_subject(rnd)
+            plit = json.dumps(ptxt, ensure_ascii=False)
+            if rnd.random() < 0.5:
+                txt = "(%s .s %s)" % (rnd.choice(["match", "match_regex"]), plit)
+            else:
+                txt = "(extract_regex_group .s %s %d)" % (plit, rnd.choice([0, 1, 1, 2, ngroups, ngroups + 1]))
+            regex[len(items)] = [{"p": X.cps(ptxt), "ast": past}]
+            items.append((X.strip(EP.parse(txt, table)), ("obj", [(X.cps("s"), ("str", X.cps(subj)))]), [], [], txt))
     cases = []
     for i, (ast, inp, vs, ms, txt) in enumerate(items):
         c = EL.select_case(txt, inp, vs, ms)
@@ -149,7 +166,7 @@ def check(tier, seed, replay=None):
     obs = run_cases(jvh, cases)
     recs = []
     for i, (ast, inp, vs, ms, txt) in enumerate(items):
-        recs.append({"case": i, "kind": "eval", "ast": ast, "ctx": EL.ctx_of(inp, vs, ms), "res": EL.observed_value(obs[i])})
+        recs.append({"case": i, "kind": "eval", "ast": ast, "ctx": dict(EL.ctx_of(inp, vs, ms), re=regex.get(i, [])), "res": EL.observed_value(obs[i])})
     for j, (txt, inp) in enumerate(bags):
         val = EL.observed_value(obs[len(items) + j])
         recs.append({"case": len(items) + j, "kind": "bag", "inp": enc(inp)["a"], "out": val if val.get("t") == "arr" else {"t": "arr", "a": []}})
@@ -176,7 +193,7 @@ def check(tier, seed, replay=None):
             chk.violation("%s on %s gives %s; %s" % (txt, rep["input"][:150], rep["observed"].strip()[:200], what[:300]), rep)
             continue
         ast, inp, vs, ms, txt = items[case]
-        rep = {"recipe": {"ast": ast, "input": enc(inp), "text": txt}, "expression": txt, "input": G.canonical(inp).decode("utf-8"),
+        rep = {"recipe": {"ast": ast, "input": enc(inp), "text": txt, "re": regex.get(case, [])}, "expression": txt, "input": G.canonical(inp).decode("utf-8"),
                "observed": {"res": obs[case]["res"], "msg": obs[case].get("msg", ""), "stdout": bytes.fromhex(obs[case]["out"]).decode("utf-8", "replace")[:500]}, "flag": what}
         if kind == "MISMATCH":
             chk.violation("%s on %s: observed %s; %s" % (txt, rep["input"][:150], rep["observed"]["stdout"].strip()[:150] or obs[case]["res"], what[:300]), rep)
